@@ -163,8 +163,12 @@ class KeyedList(Generic[ItemType, KeyType], MutableSequence, KeyedBase):  # pyli
                     f"Item with key `{repr(key)}` already in `{type_label(self._type)}`."
                 )
             self._list[index_or_key] = item
-            del self._dict[old_key]
-            self._dict[key] = item
+            if key == old_key:
+                self._dict[key] = item
+            else:
+                del self._dict[old_key]
+                self._dict[key] = item
+                self._reindex()
             return
 
         index = self.index_for_key(index_or_key)
@@ -193,8 +197,11 @@ class KeyedList(Generic[ItemType, KeyType], MutableSequence, KeyedBase):  # pyli
             raise ValueError(
                 f"Item with key `{repr(key)}` already in `{type_label(self._type)}`."
             )
+        at_end = index >= len(self._list)
         self._list.insert(index, item)
         self._dict[key] = item
+        if not at_end:
+            self._reindex()
 
     def __contains__(self, value):
         try:
@@ -215,6 +222,13 @@ class KeyedList(Generic[ItemType, KeyType], MutableSequence, KeyedBase):  # pyli
         # transiently duplicates keys; reversing the underlying list is safe
         # because the key index does not depend on item order.
         self._list.reverse()
+        self._reindex()
+
+    def _reindex(self):
+        # Keep the key index in list order, so that `keys()` and `items()` agree
+        # with a scan of the list. (Keys are reused, not computed again.)
+        keys = {id(item): key for key, item in self._dict.items()}
+        self._dict = {keys[id(item)]: item for item in self._list}
 
     def extend(self, values):
         # Validate all incoming items before adding any of them, so that a
